@@ -746,6 +746,12 @@ func (c *Ctx) recordViolation(fr *Frame, kind, msg string, model map[*Term]uint6
 	c.w.violations[v.Sig()] = v
 }
 
+// engineErr carries an internal error of the engine (with its stack) out of a scheduled goroutine.
+type engineErr struct {
+	r     any
+	stack string
+}
+
 func (c *Ctx) countObl(k int) {
 	c.obl[k]++
 }
@@ -1151,6 +1157,11 @@ func (c *Ctx) runOne(prefix []Decision) (reason string) {
 				c.w.mu.Unlock()
 			case schedAbort:
 				reason = "sched-abort"
+			case engineErr:
+				reason = "engine-error"
+				c.w.mu.Lock()
+				c.w.unsupporteds[fmt.Sprintf("engine error: %v\n%s", e.r, e.stack)]++
+				c.w.mu.Unlock()
 			default:
 				reason = "engine-error"
 				c.w.mu.Lock()
